@@ -30,7 +30,7 @@ MANIFEST = {
     "design_ref": "DESIGN.md 4.9",
     "technique": "Coq proof by induction over layers / sizes about an executable Gallina model generic in the numeric carrier "
                  "(Model/Masks.v) + exact correspondence of the extracted model with the real masks, Jacobian sparsity and values",
-    "text": "19 theorems (all closed under the global context) about an executable model of rank_based_mask / block_diag_mask / "
+    "text": "18 theorems (all closed under the global context) about an executable model of rank_based_mask / block_diag_mask / "
             "block_tril_mask, the rank formulas of MaskedAutoregressive (incl. the % 0 = 0 case of dim 1 and the -1 ranks of the "
             "condition), the masked MLP, Coupling.transform and the block autoregressive network, over an ARBITRARY numeric carrier "
             "with the single algebraic hypothesis 0*a = 0 and an arbitrary activation. For ALL raw weights, biases, dims, cond dims, "
@@ -409,6 +409,9 @@ def maf_check_dependence(ctx, u, cfg, weights, sub, mout):
         m = eqx.combine(params, static)
         if not all(bool(np.isfinite(np.asarray(l)).all()) for l in jax.tree_util.tree_leaves(params)):
             m = m0   # non-finite update: outside the premise (finite weights)
+    elif weights == "positive" and cfg.get("act") == "tanh":
+        # small positive weights: 1 - tanh(h)^2 is exactly 0 in floats for |h| > 19, which would hide a permitted dependency
+        m = replace_leaves(m, lambda l: np.abs(r.normal(0.0, 0.2, size=l.shape)) + 0.1)
     else:
         m = replace_leaves(m, gen_weights(weights, r))
     x, c = maf_case_inputs(cfg, r, weights == "positive")
@@ -545,7 +548,7 @@ def maf_shapes(ctx):
             (2, None, 4, 1), (3, None, 3, 1), (3, None, 6, 2), (4, None, 7, 1)]
     rest = [g for g in grid + extra if g not in must]
     # thorough: 300 of the remaining shapes (one XLA compilation per shape and transformer kind bounds the volume)
-    return must + [rest[i] for i in r.choice(len(rest), size=(22 if ctx.quick else 300), replace=False)]
+    return must + [rest[i] for i in r.choice(len(rest), size=(15 if ctx.quick else 300), replace=False)]
 
 
 def run_maf(ctx):
@@ -557,7 +560,7 @@ def run_maf(ctx):
     # ---- masks
     u2 = ctx.unit("maf-masks", "masks inside real MaskedAutoregressive objects (Where.cond and the unwrapped weights with every raw weight "
                                "= 1) vs Model.maf_masks; grid dim 1..5 x cond None,0..3 x width 1..7 x depth 0..3 x transformer Affine "
-                               "(2 parameters) / RationalQuadraticSpline (8 parameters); quick: 43 shapes incl. dim=1, width below/at/above "
+                               "(2 parameters) / RationalQuadraticSpline (8 parameters); quick: 36 shapes incl. dim=1, width below/at/above "
                                "the completeness threshold, depth 0, cond_dim=0; non-trivial = some mask has a true and a false entry")
     sel = [dict(g, tr="affine") for g in cfgs] + [dict(g, tr="rqs") for k, g in enumerate(cfgs) if (not ctx.quick) or k % 4 == 0]
     outs = ctx.model([f"mafmasks {g['dim']} {cond_tok(g['cond'])} {g['width']} {g['depth']} {NPARS[g['tr']]}" for g in sel])
@@ -863,7 +866,7 @@ def run_bnaf(ctx):
                                  "(softplus on diagonal blocks, block-tril Where, weight normalisation; 1e-9), and transform(x, condition) "
                                  "with tanh activation vs Model.bnaf_transform on the unwrapped weights (1e-9); non-trivial = depth >= 1")
     grid = [dict(dim=d, cond=c, depth=dp, bd=bd) for d in range(1, 5) for c in (None, 1, 2) for dp in range(0, 4) for bd in range(1, 5)]
-    n = 26 if ctx.quick else 192
+    n = 18 if ctx.quick else 192
     idx = r.choice(len(grid), size=min(n, len(grid)), replace=False)
     cases = [(dict(grid[i], act=("tanh" if k % 2 == 0 else None)), int(r.integers(1, 2 ** 31 - 1))) for k, i in enumerate(idx)]
     outs = ctx.model([f"bnafmasks {g['dim']} {g['depth']} {g['bd']}" for g, _ in cases])
